@@ -188,8 +188,10 @@ def _process_func(u, header_line, lines, mutate=None):
                 overloads[(n, int(a))] = v
         elif ln.startswith('inits:'):
             inits_mode = ln[6:].strip()
+        elif ln.startswith('prerule?:'):
+            prerules.append(_parse_rule(ln[9:]) + (False,))
         elif ln.startswith('prerule:'):
-            prerules.append(_parse_rule(ln[8:]))
+            prerules.append(_parse_rule(ln[8:]) + (True,))
         elif ln.startswith('rule?:'):
             rules.append(_parse_rule(ln[6:]) + (False,))
         elif ln.startswith('rule:'):
@@ -233,9 +235,9 @@ def _process_func(u, header_line, lines, mutate=None):
         members |= cxx.class_members(clshdr, cls)
     log = lower.RuleLog()
     pb = raw_body
-    for pat, rep in prerules:
+    for pat, rep, must in prerules:
         pb, n = re.subn(pat, rep, pb, flags=re.S)
-        if n == 0:
+        if n == 0 and must:
             raise cxx.ExtractError('must-fire prerule did not fire in %s: %s' % (qual, pat))
         log.hit('U(pre) %s' % pat, n)
     b, _ = lower.lower_body(pb, cls=cls, methods=methods, members=members if members_extra else (),
